@@ -178,31 +178,9 @@ def k_slice_tuple(x: Any, in_slice: bool) -> Optional[Any]:
     return None
 
 
-def k_bytes_quote(x: Any, in_slice: bool) -> Optional[Any]:
-    if x[0] == 0 and x[1] == 2:
-        def bad(line: List[int]) -> bool:
-            return 39 in line and 34 not in line
-        whole = x[2]
-        lines: List[List[int]] = [[]]
-        for b in whole:
-            if b == 10:
-                lines.append([])
-            else:
-                lines[-1].append(b)
-        if bad(whole) or any(bad(l) for l in lines):
-            return [0, 2, [120 if b == 39 else b for b in whole]]
-    return None
-
-
 def k_inf(x: Any, in_slice: bool) -> Optional[Any]:
     if is_inf_literal(x):
         return [0, 0, '1.5j' if 'j' in x[2] else '1.5']
-    return None
-
-
-def k_nul(x: Any, in_slice: bool) -> Optional[Any]:
-    if x[0] == 0 and x[1] == 1 and 0 in x[2]:
-        return [0, 1, [120 if c == 0 else c for c in x[2]]]
     return None
 
 
@@ -236,8 +214,8 @@ def k_dict_unpack(x: Any, in_slice: bool) -> Optional[Any]:
     return None
 
 
-KNOWN_CLASSES = [('C15-one-tuple', k_one_tuple), ('C15-slice-tuple-bound', k_slice_tuple), ('C15-bytes-quote', k_bytes_quote),
-                 ('C15-float-inf', k_inf), ('C15-str-nul', k_nul), ('C15-fstring-brace', k_fstring),
+KNOWN_CLASSES = [('C15-one-tuple', k_one_tuple), ('C15-slice-tuple-bound', k_slice_tuple),
+                 ('C15-float-inf', k_inf), ('C15-fstring-brace', k_fstring),
                  ('C15-astor-dict-unpack', k_dict_unpack)]
 
 
@@ -332,21 +310,32 @@ class Check(PropertyCheck):
         'reader (Spec/PyGrammar.v is validated against it)',
         'modelled not verified: str(number), astor.to_source for delegated forms (comparison, conditional, lambda, slices, '
         'comprehensions, f-strings, attributes of non-names) are oracles whose text is an input of the model; the regex '
-        'colouriser (calls to re.compile) is outside the model; docutils Text.astext drops NUL',
+        'colouriser (calls to re.compile) is outside the model',
     ]
     manifest = {
-        'text': ('Theorems over Model/ExprPrint.v + Model/Wrap.v + Spec/PyGrammar.v (unbounded depth): the tokens printed for an '
-                 'expression, read by a precedence-climbing reader written from the language reference, give back the same '
-                 'tree (C15_read_print, under the recorded one-element-tuple defect); the precedence table facts the proof uses '
-                 'are re-proved on the table regenerated from /repo (C15_prec_wf); _output conserves text when wrapping and '
-                 'truncated output ends with the ellipsis marker with is_complete false (C15_wrap_conserves, '
-                 'C15_truncation_marked); _str_escape round-trips (C15_str_escape_roundtrip). Model and code are tied by a '
-                 'node-for-node correspondence check over the exhaustive depth-two domain, all depth-three operator chains, '
-                 'all literal kinds and all line-length/max-lines settings; the oracle re-reads the real output with ast.parse.'),
-        'note': ('Trusted: Coq kernel, extraction + OCaml driver, gen_c15.py, the Python harness, CPython ast/tokenize as reference '
-                 'reader. Oracles (sampled only): str() of numbers, astor.to_source for delegated forms, regex colouriser.'),
-        'technique': 'Coq proof (induction on expression trees, CPS over a fuelled Pratt reader) + regenerated tables + exhaustive '
-                     'model/implementation correspondence + ast.parse oracle',
+        'text': ('Theorems over Model/ExprPrint.v + Model/Wrap.v + Model/StrEsc.v against Spec/PyGrammar.v + Spec/PyLex.v, for '
+                 'trees of any depth: the tokens printed for an expression, read by a precedence-climbing reader written from '
+                 'the language reference (run with its own fuel, proved sufficient), give back the same tree up to the '
+                 'documented spellings (C15_read_print; guard: no one-element tuple display, the recorded defect '
+                 'C15_one_tuple_refuted); the precedence facts the proof uses and the operator spellings are re-proved on the '
+                 'tables regenerated from /repo on every run (C15_prec_wf, C15_operator_spelling); _output conserves the '
+                 'text when it wraps, for every state and setting (C15_wrap_conserves); a cut result always ends with the '
+                 'ellipsis marker and says is_complete False, a complete one never (C15_truncation_marked); the inline '
+                 'display of an expression without embedded newlines is never cut (C15_inline_complete); _str_escape read '
+                 'and _bytes_escape read back as Python literals are the value, for every string (NUL, lone surrogates) and every '
+                 'byte string (C15_str_escape_roundtrip, C15_bytes_escape_roundtrip; the two repaired defects keep '
+                 '_old_refuted witnesses). Model and code are tied node for node by an '
+                 'exhaustive correspondence check (every form, every depth-two tree, every depth-three operator chain, '
+                 'every literal kind, all line-length x max-lines x linebreakok x parent-context settings, random deeper '
+                 'trees); the token view is checked against CPython tokenize, the spec reader against ast.parse, and the '
+                 'oracle re-reads every real output with ast.parse.'),
+        'note': ('Trusted: Coq kernel, extraction + OCaml driver, gen_c15.py, the Python harness, CPython ast/tokenize as the '
+                 'reference reader. Oracles (their text is an input of the model, checked by the ast.parse oracle only): str() of '
+                 'numbers and astor.to_source for delegated forms (comparison, conditional, lambda, slices, comprehensions, '
+                 'f-strings, attributes of non-names). Outside the model: the regex colouriser (re.compile calls).'),
+        'technique': 'Coq proof (induction on expression trees in continuation-passing form over a fuelled Pratt reader, fuel bound '
+                     'by consumed tokens) + tables regenerated from source + exhaustive model/implementation correspondence + '
+                     'ast.parse oracle',
     }
     assumptions = ['delegated forms (astor) are opaque atoms in the theorems; their text is checked by the oracle only',
                    'calls to re.compile are outside the model',
@@ -509,6 +498,13 @@ class Check(PropertyCheck):
             self.sample({'expr': c[0], 'linelen': c[1], 'maxlines': c[2], 'linebreakok': c[3], 'ctx': c[4]})
 
         self.stats['t_explain'] = round(time.time() - t0, 1)
+        # the driver only searches when no oracle failure at all is at hand, and the recorded defects always are:
+        # widen the search here when model and code disagree and the oracle has nothing new to say on this domain
+        breaks = [v for v in out if v.kind != 'oracle']
+        if breaks and per_class.get('', 0) == 0:
+            found = self.search(breaks)
+            self.stats['search_after_correspondence_break'] = len(found)
+            out.extend(found)
         self.spec_validation(acc['m1'])
         self.stats['t_specval'] = round(time.time() - t0, 1)
         return out
